@@ -289,6 +289,35 @@ Section Lock.
       subst h. auto.
     - destruct Hlock as (_ & _ & _ & [x Ha] & [y Hb]). destruct i; cbn in Hp; congruence.
   Qed.
+  (* ---- the timed branch of lock_with_timeout: an extra recv_packet(timeout=0) that finds the lock held *)
+  Lemma ttry_frame : forall (s : @tstate P C) i,
+      t_a (ttry s i) = t_a s /\ t_b (ttry s i) = t_b s /\ t_lock (ttry s i) = t_lock s /\ t_c (ttry s i) = t_c s /\
+      t_eof (ttry s i) = t_eof s /\ t_o (ttry s i) = t_o s /\ t_log (ttry s i) = t_log s.
+  Proof. intros s i. unfold ttry. destruct (tget s i) as [n|n|n]; try (repeat split; reflexivity); destruct (t_lock s) eqn:E; repeat split; cbn; auto. Qed.
+
+  Lemma ttry_inv : forall s i, Inv s -> Inv (ttry s i).
+  Proof.
+    intros s i H. destruct (ttry_frame s i) as (Ha & Hb & Hl & Hc & He & Ho & Hg).
+    unfold Inv, serial, tget in *. rewrite Ha, Hb, Hl, Hc, He, Ho, Hg. exact H.
+  Qed.
+
+  Lemma trun_l_inv : forall sch s, Inv s -> Inv (trun_l M s sch).
+  Proof.
+    induction sch as [|l sch IH]; intros s H; cbn; [exact H|]. apply IH.
+    destruct l; cbn; [apply tstep_inv|apply ttry_inv]; exact H.
+  Qed.
+
+  (* with such calls anywhere in the schedule, the sequence of the other calls is unchanged *)
+  Theorem lock_serialises_l : forall sch,
+      let s := trun_l M (tinit c0 o0 na nb) sch in
+      map snd (rev (t_log s)) =
+      firstn (length (t_log s)) (results (run_calls M Blocking (linit c0) o0 (repeat None (na + nb)))).
+  Proof.
+    intros sch s. destruct (trun_l_inv sch _ tinit_inv) as [(rs & stk & ok & Hrun & Hmap & _) Hcnt]. fold s in Hrun, Hmap, Hcnt.
+    rewrite <- Hmap.
+    replace (na + nb) with (length (t_log s) + (inflight (t_a s) + inflight (t_b s))) by lia.
+    eapply run_calls_prefix; eauto.
+  Qed.
 End Lock.
 
 Lemma filter_firstn_nth : forall {A} (f : A -> bool) k (l : list A) j r,
@@ -328,6 +357,12 @@ Section LockProg.
       map snd (rev (t_log s)) =
       firstn (length (t_log s)) (results (run_calls M Blocking (linit c0) o (repeat None (na + nb)))).
   Proof. intros c0 o na nb sch. apply (lock_serialises M c0 o (fun _ _ => True) prog_step). auto. Qed.
+
+  Lemma lock_serialises_l_prog : forall c0 o na nb sch,
+      let s := trun_l M (tinit c0 o na nb) sch in
+      map snd (rev (t_log s)) =
+      firstn (length (t_log s)) (results (run_calls M Blocking (linit c0) o (repeat None (na + nb)))).
+  Proof. intros c0 o na nb sch. apply (lock_serialises_l M c0 o (fun _ _ => True) prog_step). auto. Qed.
 
   Lemma lock_mutex_prog : forall c0 o na nb sch,
       let s := trun M (tinit c0 o na nb) sch in
@@ -388,6 +423,12 @@ Section LockRel.
       firstn (length (t_log s)) (results (run_calls M Blocking (linit c0) o (repeat None (na + nb)))).
   Proof. intros o na nb sch HG. apply (lock_serialises M c0 o good_rel rel_step (rel_enter o HG)). Qed.
 
+  Lemma lock_serialises_l_rel : forall o na nb sch, G (stream_of o) ->
+      let s := trun_l M (tinit c0 o na nb) sch in
+      map snd (rev (t_log s)) =
+      firstn (length (t_log s)) (results (run_calls M Blocking (linit c0) o (repeat None (na + nb)))).
+  Proof. intros o na nb sch HG. apply (lock_serialises_l M c0 o good_rel rel_step (rel_enter o HG)). Qed.
+
   Lemma lock_mutex_rel : forall o na nb sch, G (stream_of o) ->
       let s := trun M (tinit c0 o na nb) sch in
       forall i n, tget s i = TParked n -> t_lock s = Some i /\ (forall m, tget s (negb i) <> TParked m).
@@ -417,3 +458,10 @@ Proof.
   intros P C M _ spec R OK c0 R0 o na nb sch j r H.
   exact (threads_recv_sequence_rel M spec _ R _ (consumer_ok_is_rel M spec R OK) c0 R0 o na nb sch j r I H).
 Qed.
+
+(* a recv_packet(timeout=0) that finds the receive lock held reports a timeout and touches nothing else: neither the
+   lock, nor the endpoint (consumer, latch), nor the transport, nor the other thread, nor the record of returned calls *)
+Lemma lock_timeout_untouched : forall {P C : Type} (s : @tstate P C) (i : bool),
+    t_a (ttry s i) = t_a s /\ t_b (ttry s i) = t_b s /\ t_lock (ttry s i) = t_lock s /\ t_c (ttry s i) = t_c s /\
+    t_eof (ttry s i) = t_eof s /\ t_o (ttry s i) = t_o s /\ t_log (ttry s i) = t_log s.
+Proof. intros P C s i. unfold ttry. destruct (tget s i) as [n|n|n]; try (repeat split; reflexivity); destruct (t_lock s) eqn:E; repeat split; cbn; auto. Qed.
